@@ -457,6 +457,45 @@ func (cx *Ctx) checkInflateCases(r *Report, rule string) {
 		r.Fail(rule, "xml.InflateAndDecode", "", "anchor function not found")
 		return
 	}
+	encParam := fn.Params[0].Name()
+	// follow a plain delegation: InflateAndDecode(...) { return inflateWithX(..., encoding, ...) }
+	for hops := 0; hops < 3; hops++ {
+		rets := returnsOf(fn)
+		var del *ssa.Call
+		okDel := len(rets) > 0
+		for _, ret := range rets {
+			if len(ret.Results) != 2 {
+				okDel = false
+				break
+			}
+			e0, ok0 := ret.Results[0].(*ssa.Extract)
+			e1, ok1 := ret.Results[1].(*ssa.Extract)
+			if !ok0 || !ok1 || e0.Tuple != e1.Tuple {
+				okDel = false
+				break
+			}
+			c, isC := e0.Tuple.(*ssa.Call)
+			if !isC || calleeOf(c) == nil || calleeOf(c).Blocks == nil || del != nil && del != c {
+				okDel = false
+				break
+			}
+			del = c
+		}
+		if !okDel || del == nil {
+			break
+		}
+		idx := -1
+		for i, a := range del.Call.Args {
+			if p, isP := a.(*ssa.Parameter); isP && p.Name() == encParam {
+				idx = i
+			}
+		}
+		if idx < 0 {
+			break
+		}
+		fn = calleeOf(del)
+		encParam = fn.Params[idx].Name()
+	}
 	aps, ok := fx.atomPaths(fn, 4096)
 	if !ok {
 		r.Undecided(rule, "xml.InflateAndDecode", w.FnPos(fn), "too many paths")
@@ -476,10 +515,10 @@ func (cx *Ctx) checkInflateCases(r *Report, rule string) {
 			if a.Neg {
 				continue
 			}
-			if a.Op == "EMPTY" && strings.HasSuffix(a.A, "/encoding") {
+			if a.Op == "EMPTY" && strings.HasSuffix(a.A, "/"+encParam) {
 				matched = true
 			}
-			if a.Op == "EQ" && (a.A == cDeflate || a.B == cDeflate) && (strings.HasSuffix(a.A, "/encoding") || strings.HasSuffix(a.B, "/encoding")) {
+			if a.Op == "EQ" && (a.A == cDeflate || a.B == cDeflate) && (strings.HasSuffix(a.A, "/"+encParam) || strings.HasSuffix(a.B, "/"+encParam)) {
 				matched = true
 			}
 		}
